@@ -48,6 +48,10 @@ def handle : List String → String
   | "bundle" :: rest => match parseFonts rest with
     | some fs => hashRes (bundle fs)
     | none => "bad-op"
+  | "has" :: codes :: rest => match parseFont rest, (codes.splitOn ",").mapM (·.toNat?) with
+    | some f, some cs => " ".intercalate (cs.map fun c => match hasChar f c with
+        | .ok b => toString b | .err => "err" | .panic => "panic") ++ s!" height={fontHeight f}"
+    | _, _ => "bad-op"
   | ["dec", hx] => match parseHex hx with
     | some bs => (match fromTdf bs with
       | .ok fs => s!"ok {fs.length}" ++ String.join (fs.map fun f => " ; " ++ fontObs f)
